@@ -1120,6 +1120,74 @@ fn run_cfg(cfg: &SegCfg, rng: &mut Rng, mode: &str, len: usize, out: &mut Out) {
     }
 }
 
+/// purity at SIZE (mode c10): a builder of its own over 2k variables, the CNF AND_i (x_i | y_i) with every x ordered before every y
+/// (a BDD of 2^(k+1) - 2 nodes; k = 12 or 13), compiled plainly and under an (empty or small) partial assignment, then queried; after every
+/// call the recorder walks ALL nodes reachable from the diagrams built so far and reports how many scratch slots are not empty, and for
+/// `count_nodes` the number of reachable nodes of its argument. One `bigpure` event per call (a stuttering step of the specification).
+fn big_purity(rng: &mut Rng, out: &mut Out) {
+    use std::collections::HashSet;
+    let k = 12 + rng.below(2);
+    let n = 2 * k;
+    let b = RobddBuilder::<AllIteTable<BddPtr>>::new(VarOrder::linear_order(n));
+    let cl: Vec<Vec<Literal>> = (0..k).map(|i| vec![Literal::new(VarLabel::new_usize(i), true), Literal::new(VarLabel::new_usize(i + k), true)]).collect();
+    let cnf = Cnf::new(&cl);
+    let mut roots: Vec<BddPtr> = vec![];
+    fn reach<'a>(p: BddPtr<'a>, seen: &mut HashSet<usize>, dirty: &mut usize) {
+        if let BddPtr::Reg(nd) | BddPtr::Compl(nd) = p {
+            if seen.insert(nd as *const BddNode as usize) {
+                if !BddPtr::Reg(nd).is_scratch_cleared() {
+                    *dirty += 1;
+                }
+                reach(nd.low, seen, dirty);
+                reach(nd.high, seen, dirty);
+            }
+        }
+    }
+    let w = WmcParams::<RealSemiring>::new((0..n).map(|v| (VarLabel::new_usize(v), (RealSemiring(0.5), RealSemiring(0.5)))).collect());
+    for op in ["cnf", "cnfa", "count", "wmc", "cnfa1", "count", "cond", "count", "eval", "count"] {
+        let mut ev = json!({"ev": "bigpure", "op": op, "k": k, "count": -1, "reach": -1});
+        let last = roots.last().copied().unwrap_or(BddPtr::PtrTrue);
+        let r: Result<Option<BddPtr>, String> = match op {
+            "cnf" => guarded(|| Some(b.compile_cnf(&cnf))),
+            "cnfa" => guarded(|| Some(b.compile_cnf_with_assignments(&cnf, &PartialModel::new(n)))),
+            "cnfa1" => {
+                let mut m = PartialModel::new(n);
+                m.set(VarLabel::new_usize(rng.below(k)), false);
+                guarded(|| Some(b.compile_cnf_with_assignments(&cnf, &m)))
+            }
+            "cond" => guarded(|| Some(b.condition(last, VarLabel::new_usize(k + rng.below(k)), rng.coin()))),
+            "count" => guarded(|| {
+                let c = last.count_nodes();
+                let (mut s, mut d) = (HashSet::new(), 0usize);
+                reach(last, &mut s, &mut d);
+                ev["count"] = json!(c);
+                ev["reach"] = json!(s.len());
+                None
+            }),
+            "wmc" => guarded(|| {
+                let _ = last.unsmoothed_wmc(&w);
+                None
+            }),
+            _ => guarded(|| {
+                let _ = last.evaluate(&vec![true; n]);
+                None
+            }),
+        };
+        match r {
+            Ok(Some(p)) => roots.push(p),
+            Ok(None) => {}
+            Err(m) => ev["panic"] = json!(m),
+        }
+        let (mut seen, mut dirty) = (HashSet::new(), 0usize);
+        for p in &roots {
+            reach(*p, &mut seen, &mut dirty);
+        }
+        ev["dirty"] = json!(dirty);
+        ev["nodes"] = json!(seen.len());
+        out.emit(ev);
+    }
+}
+
 pub fn record(args: &Args) {
     let seed = args.num("seed", 1);
     let segs = args.num("segments", 4) as usize;
@@ -1129,6 +1197,10 @@ pub fn record(args: &Args) {
     let mut out = Out::new(&args.str("out", "-"));
     let mut rng = Rng::new(seed);
     out.emit(json!({"ev": "init", "kind": "bdd", "nmax": nmax, "k": K, "mode": mode, "seed": seed}));
+    if mode == "c10" {
+        let mut r2 = Rng::new(seed ^ 0xb19);
+        big_purity(&mut r2, &mut out);
+    }
     for _ in 0..segs {
         let cfg = rand_cfg(&mut rng, nmax, &mode);
         if mode == "c16" {
